@@ -90,7 +90,9 @@ TargetAfterFailure(o, p, c) ==
   IF c.op \in Ctors THEN p.hd[T(c)].k = "D"
   ELSE IF c.op = "extend" THEN p.hd[T(c)].k # "D" /\ p.hd[T(c)].text \in
            {o.hd[T(c)].text \o Concat(SubSeq(c.x, 1, j)) : j \in 0..Len(c.x)}
-  ELSE p.hd[T(c)].k # "D" /\ p.hd[T(c)].text = o.hd[T(c)].text
+  \* "the target still holds exactly the value it held before" / "never leave the target changed": the whole handle - text,
+  \* length, capacity (a reservation granted earlier is still there), storage, sharing
+  ELSE p.hd[T(c)] = o.hd[T(c)]
 FailAtomic(o, p, c) ==                                                         \* C05
   c.inj =>
     /\ c.op \notin (IterOps \ {"display"}) => (Failed(c) /\ c.cls = (IF c.t = 1 THEN "err" ELSE "panic"))
@@ -113,10 +115,14 @@ CloneCheap(o, p, c) ==                                                         \
      /\ src.k = "I" => cp.pc = "self"
 
 CtorStorage(p, c, a) ==                                                        \* C09
-  (c.op \in TextCtors /\ c.cls = "ok") =>
+  /\ (c.op \in TextCtors /\ c.cls = "ok") =>
      LET n == Len(a.txt[T(c)])  r == p.hd[T(c)] IN
      IF n <= MaxInl THEN r.k # "H" /\ ~r.heap /\ c.dA = 0 /\ c.dR = 0 /\ c.xA = 0
      ELSE r.heap /\ c.dA = 1 /\ c.dR = 0 /\ c.xA = 0 /\ r.cap = n
+  \* "through every constructor and conversion": a decoded text of at most 16 bytes is inline as well (a decoder's
+  \* buffer for a longer text is its own business: it sizes by the input, not by the result)
+  /\ (c.op \in {"from_utf8_lossy", "from_utf16", "from_utf16_lossy"} /\ c.cls = "ok" /\ Len(a.txt[T(c)]) <= MaxInl) =>
+        (p.hd[T(c)].k # "H" /\ ~p.hd[T(c)].heap /\ c.dA = 0 /\ c.dR = 0)
 InlineEdit(o, p, c) ==                                                         \* C09
   (c.op \in EditOps /\ o.hd[T(c)].k = "I" /\ p.hd[T(c)].k # "D" /\ p.hd[T(c)].len <= MaxInl) =>
      (c.dA + c.dR + c.xA = 0 /\ p.hd[T(c)].k # "H" /\ ~p.hd[T(c)].heap)
